@@ -68,7 +68,11 @@ func C04_Bytes() {
 
 // C04_ModuleBody: the same bytes as the body of an imported source module.
 func C04_ModuleBody() {
-	n := 1 + vf.Choice("n", 3)
+	maxN := 2
+	if Tier() > 0 {
+		maxN = 3
+	}
+	n := 1 + vf.Choice("n", maxN)
 	body := vf.Bytes("src", n)
 	s := tengo.NewScript([]byte(`x := import("m")`))
 	mods := tengo.NewModuleMap()
@@ -184,7 +188,7 @@ func C04_Templates() {
 // one byte or reports EOF, so scanning ends within len(src)+1 tokens plus
 // inserted semicolons.
 func C04_ScannerProgress() {
-	maxN := 3
+	maxN := 2
 	if Tier() > 0 {
 		maxN = 4
 	}
@@ -215,4 +219,41 @@ func C04_ScannerProgress() {
 	}, 2000000)
 	vf.Assert(res == 0, "scanning returns (no panic, no hang): "+vf.LastGuard())
 	vf.Reach("scanner")
+}
+
+var c04SymTemplates = []string{"$X = 5", "$X := 5", "$X += 1", "for $X in [1] {}", "f := func($X) { return $X }", "out := $X(1)", "out := {$X: 1}.$X"}
+
+// C04_SymIdent: templates whose identifier is 1..5 arbitrary bytes: the
+// keyword table and symbol-table lookups fork on equality with every keyword
+// and builtin name of that length, so names like len/int/copy/range are found
+// by the solver rather than listed by hand.
+func C04_SymIdent() {
+	t := c04SymTemplates[vf.Choice("template", len(c04SymTemplates))]
+	maxN := 4
+	if Tier() > 0 {
+		maxN = 5
+	}
+	n := 1 + vf.Choice("n", maxN)
+	id := vf.String("id", n)
+	// identifier-shaped: first byte a letter or _, the rest letters/digits/_ (ASCII)
+	for k := 0; k < n; k++ {
+		c := id[k]
+		letter := vf.Or(vf.Or(vf.And(c >= 'a', c <= 'z'), vf.And(c >= 'A', c <= 'Z')), c == '_')
+		if k == 0 {
+			vf.Assume(letter)
+		} else {
+			vf.Assume(vf.Or(letter, vf.And(c >= '0', c <= '9')))
+		}
+	}
+	src := ""
+	for i := 0; i < len(t); i++ {
+		if t[i] == '$' && i+1 < len(t) && t[i+1] == 'X' {
+			src += id
+			i++
+			continue
+		}
+		src += string(t[i])
+	}
+	checkTotal([]byte(src), "a template with an arbitrary identifier", false)
+	vf.Reach("symident")
 }
